@@ -146,7 +146,7 @@ manifest = {
     ],
     "checks": checks,
     "not_applicable": na,
-    "notes": "All checks: ./check <ID> quick|thorough, replay with ./check <ID> --replay <file>. Exit 0 held / 1 VIOLATION / 2 harness error. Known findings in known_findings.json (open: C19 D10, C17 D12/D13; eleven fixed by fix: commits in /repo). Sensitivity: mutants/selftest.py (54 hand-made mutants) and tools/eval_all_seeded.py (80 independently seeded changes), all caught by the quick tier without the regression corpus.",
+    "notes": "All checks: ./check <ID> quick|thorough, replay with ./check <ID> --replay <file>. Exit 0 held / 1 VIOLATION / 2 harness error. Known findings in known_findings.json (open: C19 D10, C17 D12/D13; eleven fixed by fix: commits in /repo). Sensitivity: mutants/selftest.py (54 hand-made mutants) and tools/eval_all_seeded.py (100 independently seeded changes); tools/eval_refactor_batch.py / refactorings/ (40 property-preserving rewrites, all checks quiet), all caught by the quick tier without the regression corpus.",
 }
 (VERIF / "MANIFEST.json").write_text(json.dumps(manifest, indent=1) + "\n")
 print("claimed:", [c["property_id"] for c in checks], "not yet:", [n["property_id"] for n in na])
